@@ -562,13 +562,15 @@ class Scratch:
         return os.path.join(self.dir, rel)
 
 
-def run_cli(args, cwd, env=None, timeout=30):
+def run_cli(args, cwd, env=None, timeout=30, drop=()):
     """run the rebuilt typeshare binary; returns dict(rc, out, err, timed_out)"""
     e = dict(ENV)
     e["RUST_LOG"] = "info"
     e.pop("RUST_BACKTRACE", None)
     if env:
         e.update(env)
+    for k in drop:
+        e.pop(k, None)
     try:
         p = subprocess.run([CLI_BIN] + list(args), cwd=cwd, env=e, stdout=subprocess.PIPE, stderr=subprocess.PIPE,
                            text=True, timeout=timeout, errors="replace")
@@ -648,7 +650,28 @@ def dirty_destination(check, label, lang, sources, extra_args=(), earlier_source
                 return {"state": name, "lang": lang, "sources": sources, "existing_file": content.decode("utf-8", "replace")[-1500:],
                         "file_after_run": None if got is None else got.decode("utf-8", "replace")[-2500:],
                         "fresh_run": ref.decode("utf-8", "replace")[-2500:], "rc": r["rc"]}
+        # the generated definitions are a function of the sources, the configuration and the options - not of the process
+        # environment: the same command into a fresh path under other logging levels / locale settings writes the same bytes
+        for name, env in ENVIRONMENTS:
+            out = sc.path("dest-%s/out.%s" % (name, EXT[lang]))
+            os.makedirs(os.path.dirname(out))
+            e = {k: v for k, v in env.items() if v is not None}
+            r = run_cli(cmd(out), cwd=sc.dir, env=e, drop=[k for k, v in env.items() if v is None])
+            check.saw(("environment", label, lang, name, hashlib.sha256(ref).hexdigest()[:12]), nontrivial=True)
+            check.count("environment-" + name)
+            got = open(out, "rb").read() if os.path.exists(out) else None
+            if r["rc"] != 0 or got != ref:
+                return {"state": "process environment " + name, "environment": env, "lang": lang, "sources": sources,
+                        "existing_file": "", "stderr": (r["err"] or "")[-1500:],
+                        "file_after_run": None if got is None else got.decode("utf-8", "replace")[-2500:],
+                        "fresh_run": ref.decode("utf-8", "replace")[-2500:], "rc": r["rc"]}
     return None
+
+
+ENVIRONMENTS = [("log-debug", {"RUST_LOG": "debug"}), ("log-trace", {"RUST_LOG": "trace"}),
+                ("log-core-debug", {"RUST_LOG": "typeshare_core=debug"}), ("log-unset", {"RUST_LOG": None}),
+                ("log-off-backtrace", {"RUST_LOG": "off", "RUST_BACKTRACE": "1"}),
+                ("locale-c", {"LANG": "C", "LC_ALL": "C", "NO_COLOR": "1", "TERM": "dumb"})]
 
 
 ON_DISK_NOW = """/// A user record.
@@ -674,6 +697,10 @@ pub enum Event {
 
 #[typeshare]
 pub type Alias = Vec<UserRecord>;
+
+#[typeshare]
+#[serde(rename_all = "snake_case")]
+pub enum Colour { DarkRed, #[serde(rename = "blue-ish")] Blue, PaleGreen }
 """
 ON_DISK_BEFORE = ON_DISK_NOW + """
 /// A type of an earlier version of the program, removed since: its text is longer than anything that follows.
@@ -690,7 +717,8 @@ def on_disk_tie(check):
     for lang in LANGS:
         prob = dirty_destination(check, "shared", lang, {"src/lib.rs": ON_DISK_NOW}, earlier_sources={"src/lib.rs": ON_DISK_BEFORE})
         if prob:
-            check.violation("%s: written over a destination that holds an earlier output (%s) the generated file is not what a fresh run writes: "
-                            "the definitions on disk mix two runs" % (lang, prob["state"]), case=prob, impl=prob["file_after_run"],
+            check.violation("%s: %s the generated file is not what a fresh run writes" % (
+                lang, "under the " + prob["state"] if "environment" in prob else
+                "written over a destination that holds an earlier output (%s) - the definitions on disk mix two runs:" % prob["state"]), case=prob, impl=prob["file_after_run"],
                             model=prob["fresh_run"], failing_input=True)
             return
